@@ -824,7 +824,14 @@ pub fn c09(em: &mut Emit, thorough: bool, seed: u64) {
                 let from = s.steps.len();
                 s.apply(&Op::PollUntilPending(1));
                 consume(&mut s, &mut frames, from);
-                em.note("gz", &format!("0 {} {}", hex(&frames), hex(&written)));
+                // how many bytes the encoder pushed during this flush call (K2 classification)
+                let pushed = s.steps[..from]
+                    .iter()
+                    .rev()
+                    .find(|st| st.tok.starts_with("GF"))
+                    .map(|st| (st.tok.len() - 2) / 2)
+                    .unwrap_or(0);
+                em.note("gz", &format!("0 {} {} {}", hex(&frames), hex(&written), pushed));
             }
         }
         let from = s.steps.len();
@@ -835,7 +842,7 @@ pub fn c09(em: &mut Emit, thorough: bool, seed: u64) {
         s.apply(&Op::Eos);
         s.apply(&Op::Poll(1));
         consume(&mut s, &mut frames, from);
-        em.note("gz", &format!("1 {} {}", hex(&frames), hex(&written)));
+        em.note("gz", &format!("1 {} {} 0", hex(&frames), hex(&written)));
         if ok && !s.steps.iter().any(|st| st.obs == Obs::End) {
             ok = false;
             why = "gzip body never ended".into();
